@@ -37,3 +37,15 @@ PROPS["C05"] = {
     "assumptions": ["requested permits k >= 1", "stopwatch non-decreasing", "interval/period taken from the stated grid; bursty maxExecutions is a power of two (division of a symbolic deficit by 3, 5, 10 or 100 is not decided by any installed solver within 60 s)"],
 }
 PROPS["C05"]["thorough"] = PROPS["C05"]["quick"]
+
+DEFAULT_LEVEL_TEXT = ("Bounded symbolic model checking of the real code: the property's harness is executed symbolically from /repo's current "
+                      "go/ssa; every feasible path within the stated bounds is explored and each assertion is discharged by an SMT solver for all "
+                      "inputs/instants/schedules on that path. Holds 'for every value within the bound', says nothing outside it.")
+DEFAULT_LEVEL_NOTE = ("Trusted: the symgo interpreter and its environment stubs (clock, timers, mutex/atomics, contexts, errors.Is, reflect), the SMT solvers, "
+                      "go/ssa. Bounds (sizes, script lengths, goroutines, preemptions, config grids) are listed per harness in the evidence; paths cut by a bound are counted.")
+
+# Properties not (yet) claimed. Kept current as checks land.
+NOT_APPLICABLE = {}
+for _p in ["C%02d" % i for i in range(1, 20)]:
+    if _p not in PROPS:
+        NOT_APPLICABLE[_p] = "no check registered yet in this revision (harness under construction); not claimed"
